@@ -394,6 +394,13 @@ func streamIdent(seed uint64, idx int) caseT {
 		v = g.value(3)
 	}
 	lines = append(lines, "S "+hexField(literalTok(v))+" null\texpect="+canonOf(v))
+	if rawOK(s) {
+		// the three kinds of token in ONE expression, in both orders (a scanner that leaves something behind for the next
+		// token — a shared scratch buffer — shows up here and nowhere else)
+		q, r, l := jsonText(s), rawTok(s), literalTok(v)
+		lines = append(lines, "S "+hexField("["+l+", "+r+", "+q+", "+r+", "+l+"]")+" "+canonOf(doc),
+			"S "+hexField("["+q+", "+r+", "+q+"] | [@, "+r+" == "+l+"]")+" "+canonOf(doc))
+	}
 	return caseT{lines: lines}
 }
 
